@@ -359,11 +359,16 @@ def run(ctx):
     ctx.layer('annotate-rounds', acc)
     from props import c19_repair
     c19_repair.run_layer(ctx)
+    from props import c19_cli
+    c19_cli.run_layer(ctx)
 
 
 def replay(case):
     common.bind_repo()
     acc = Acc()
+    if case.get('layer') == 'cli':
+        from props import c19_cli
+        return c19_cli.replay(case)
     if case.get('layer') == 'repair':
         from props import c19_repair
         return c19_repair.replay(case)
